@@ -196,7 +196,9 @@ def extra_verdicts(genfn, nq, nt):
             # an error of derive_ex's own reaches rustc as `compile_error!`: a diagnostic without an error code.  The wording
             # is the implementation's business (no property prescribes it): the known text is looked for first, any
             # code-less error will do
-            own = lambda d: d['level'] == 'error' and d.get('code') is None
+            NOT_OWN = ('cannot find ', 'custom attribute panicked', 'proc-macro derive panicked', 'proc macro panicked',
+                       'unexpected ', 'unresolved ', 'mismatched ', 'unknown ')
+            own = lambda d: d['level'] == 'error' and d.get('code') is None and not d['message'].startswith(NOT_OWN)
             if 'expect_only_error' in c:
                 errs = [d for d in diags if d['level'] == 'error']
                 good = (not accepted) and errs and all(any(t in d['message'] for t in c['expect_only_error']) or own(d) for d in errs)
@@ -537,7 +539,7 @@ PROPS.update({
         l1_is_concrete=('tokens', 'class'),
         l1_concrete_text='the re-emitted item differs from the input minus the documented derive_ex-owned attributes (the model, proved equal to docStrip*)',
         extra=extras(extra_programs(l2gen.gen_c14_program, 120, 2400, what='foreign content of the annotated item did not survive the attribute macro'),
-                     extra_verdicts(l2gen.gen_c14_error_case, 48, 600)),
+                     extra_verdicts(l2gen.gen_c14_error_case, 96, 1200)),
     ),
     'C15': dict(
         explanation='theorems: the impls are the same through either entry point, for merged and split lists, in list order (entry_equiv_*, split_equiv, order_preserved); an entry of the list yields the same impls under any two co-derived sets when the item carries no helper attribute that belongs only to the other traits (struct_any_coderived_set, enum_any_coderived_set). Metamorphic real-vs-real comparisons need no model: attribute macro vs #[derive(Ex)], merged vs split, one trait alone vs with the others.',
